@@ -477,8 +477,10 @@ func (r *Router) RunHandlers(ctx context.Context) error {
 		go func() {
 			defer cancel()
 
+			verifhook.At("router.wiring.before_snapshot", name)
 			r.middlewaresLock.Lock()
 			middlewares := append([]middleware{}, r.middlewares...)
+			verifhook.At("router.wiring.snapshot_taken", name)
 			r.middlewaresLock.Unlock()
 
 			h.run(ctx, middlewares)
